@@ -3,7 +3,7 @@ package main
 func init() {
 	register(&propSpec{
 		ID: "C09", Level: "exploration",
-		QuickRuns: 24000, QuickSecs: 60, ThorRuns: 3000000, ThorSecs: 1200,
+		QuickRuns: 40000, QuickSecs: 60, ThorRuns: 3000000, ThorSecs: 1200,
 		Rule: "one evaluation = one seeded simulated run: a generated workload (capacity 0-4, 1-3 producers x 1-3 sends, 0-3 consumers, 0-2 closers, observers, sleep jitter; Go-level Channel or script-level spawn+Channel) executed on the instrumented copy of /repo under a seeded schedule. A run is non-trivial if the scheduler preempted a task inside a focus file (std/channel, std/spawn.go, node/lambda.go) or switched tasks more than twice; distinct = distinct hash of (sequence of context switches with their yield sites, recorded history).",
 		Assume: []string{
 			"preemption is statement-granular: interleavings inside one Go statement are not explored",
@@ -16,7 +16,7 @@ func init() {
 func init() {
 	register(&propSpec{
 		ID: "C10", Level: "exploration", Race: true, Procs: []int{1},
-		QuickRuns: 3000, QuickSecs: 90, ThorRuns: 300000, ThorSecs: 1500,
+		QuickRuns: 5000, QuickSecs: 90, ThorRuns: 300000, ThorSecs: 1500,
 		Rule: "one evaluation = one seeded simulated run on a -race build of the instrumented copy: 2-16 tasks issue 2-60 registry calls each (AddClass/AddInterface/AddFunc/GetClass/GetInterface/GetFunc/LoadPkg/SetConstant/GetConstant/EnsureGlobalZVal/php file cache/AllClasses/AllFuncs/GetOrLoadClass with autoload from fixture files) over a pool of 1-6 overlapping names, preempted at statement granularity inside the VM methods (lock-aware). Non-trivial = at least one preemption inside runtime/vm*.go, parser/class_path_manager.go or runtime/autoload.go; distinct = distinct hash of (context-switch sequence with yield sites, recorded call history).",
 		Assume: []string{
 			"the Go race detector reports every unsynchronised conflicting access pair it observes in the serialised execution (its shadow memory keeps a bounded history)",
@@ -29,7 +29,7 @@ func init() {
 func init() {
 	register(&propSpec{
 		ID: "C13", Level: "fault_enumeration",
-		QuickRuns: 12000, QuickSecs: 90, ThorRuns: 1500000, ThorSecs: 1500,
+		QuickRuns: 20000, QuickSecs: 90, ThorRuns: 1500000, ThorSecs: 1500,
 		Rule: "one evaluation = one seeded case: a generated handler sequence of 0-8 response operations over the 11-operation alphabet, 0-5 middlewares with priorities from {-1,0,0,1,5} (optional pre/post operations, short-circuit), optional onError handler, connection mode (strict body rules, write error at the j-th write); for that case the request is served once without abort and once for EVERY abort point (handler throws before operation k, k=0..len), each through the real ServeMux into the simulated connection and compared with the commit-once reference model. Non-trivial = the handler sequence is non-empty; distinct = distinct hash of all observations of the case.",
 		Assume: []string{
 			"body bytes of json/html/success/error are taken from serving that single operation alone at the same fake time (the serializer is not re-implemented)",
@@ -42,7 +42,7 @@ func init() {
 func init() {
 	register(&propSpec{
 		ID: "C11", Level: "exploration",
-		QuickRuns: 4000, QuickSecs: 120, ThorRuns: 400000, ThorSecs: 1500,
+		QuickRuns: 8000, QuickSecs: 120, ThorRuns: 400000, ThorSecs: 1500,
 		Rule: "one evaluation = one seeded simulated run: a generated server script (1-3 routes whose handlers are compositions of labelled feature blocks: double reads of $_GET/$_POST/$_COOKIE/$_SERVER/$_REQUEST and of the same data through the request object with a gate in between, loops, arrays, objects, method recursion to depth 1-150, closures, helper functions, request attributes; 0-2 middlewares; optional onError) serves 2-8 (thorough: up to 64) in-flight requests with distinct parameters, each client a task on the real ServeMux, interleaved by the seeded scheduler; every response is compared with the response of the same request served alone on a second fresh VM. Non-trivial = more context switches than requests; distinct = distinct hash of (context-switch sequence, all responses).",
 		Assume: []string{
 			"handlers are pure functions of the request by construction; the generator self-check serves every request alone twice and discards the case if the two differ",
@@ -55,7 +55,7 @@ func init() {
 func init() {
 	register(&propSpec{
 		ID: "C12", Level: "exploration",
-		QuickRuns: 6000, QuickSecs: 120, ThorRuns: 800000, ThorSecs: 1500,
+		QuickRuns: 10000, QuickSecs: 120, ThorRuns: 800000, ThorSecs: 1500,
 		Rule: "one evaluation = one seeded history of 3-14 (thorough: up to 40) operations {define classes/interfaces/functions by parsing and running a snippet, observe through a freshly parsed snippet, observe through a snippet parsed once and shared by all VMs, discard VM} over 1 base VM + 1-4 temporary VMs and a pool of 8 names with collisions, with faulted snippets (throw after definitions, syntax error after k definitions); sequential histories by one driver task or, in a quarter of the runs, one concurrent task per temporary VM interleaved by the seeded scheduler. After every step every (VM, kind, name) triple is observed through the Go lookup API and compared with the set-based model. Non-trivial = at least 3 operations; distinct = distinct hash of (schedule, step log).",
 		Assume: []string{
 			"a duplicate definition on a temporary VM may be accepted (last wins) or rejected: both are legal; where the base VM and a temporary VM define the same name either tag is accepted on that temporary VM",
@@ -68,7 +68,7 @@ func init() {
 func init() {
 	register(&propSpec{
 		ID: "C19", Level: "exploration",
-		QuickRuns: 3000, QuickSecs: 120, ThorRuns: 400000, ThorSecs: 1500,
+		QuickRuns: 6000, QuickSecs: 120, ThorRuns: 400000, ThorSecs: 1500,
 		Rule: "one evaluation = one seeded history: 1-4 (thorough: up to 6) instantiations of generic classes with 1-2 type parameters over {int, string, array, U} interleaved with 2-12 typed member writes (property or method parameter declared with the type parameter) of values {7, \"s\", [1], new U, new V} on any live instance; sequential, or in a third of the runs split over 2-3 spawned coroutines interleaved by the seeded scheduler. Every write's accept/reject outcome is compared with the same instance alone on a fresh VM and with a non-generic class declared with the concrete type. Distinct = distinct hash of (schedule, outcome vector); every case is non-trivial (at least one instantiation and two writes).",
 		Assume: []string{
 			"coercion rules are not modelled: the expected outcome comes from a non-generic class with the concrete declared type in the same build",
@@ -80,7 +80,7 @@ func init() {
 func init() {
 	register(&propSpec{
 		ID: "C20", Level: "exploration",
-		QuickRuns: 2400, QuickSecs: 150, ThorRuns: 300000, ThorSecs: 1500,
+		QuickRuns: 4800, QuickSecs: 150, ThorRuns: 300000, ThorSecs: 1500,
 		Rule: "one evaluation = one seeded case, one of: (gen) a program assembled from 1-6 parts aimed at code that ranges over Go maps (classes with defaulted properties, inheritance, dynamic properties, json_decode, array literals, ~50 array/string/reflection builtins, uncaught throw), run on fresh VMs in-process under 6 chosen map iteration orders (sorted, reverse, 4 seeded permutations per site and call) plus lines whose content the generator knows from construction (insertion order); (pair) program A that leaves state behind (open output buffers, ini, handlers, autoloaders, superglobal writes, statics, env, ...) then probe program B on another fresh VM in the same process vs B alone; (corpus) a deterministic file of tests/ run as a fresh OS process of the instrumented binary under 3 map orders comparing stdout, stderr and exit status. A difference is bisected to the one range-over-map statement that causes it. Every case is non-trivial; distinct = distinct hash of (case, reference result).",
 		Assume: []string{
 			"the adversary is Go map iteration order at the 110 rewritten range-over-map sites (ordered key types) and the one sync.Map.Range site; maps ranged inside the Go standard library or third-party modules are not controlled",
